@@ -35,9 +35,10 @@ NAME = [
     "<i>State v. Bar</i>, ",
     "<i>Foo v. bar</i>, ",
     "<i>Foo v. Bar Co.</i>, ",
-    "<i>Roe v. Li</i>, ",  # a two-letter party name: too short to found a reference
+    "<i>Roe v. Li</i>, ",
+    "<i>Foo&nbsp;v.&nbsp;Bar</i>, ",  # a two-letter party name: too short to found a reference
 ]
-CITE = ["1 U.S. 1 (1999).", "1 U.S. 1, 5 (1999);", "1 U.S.\n 1.", "<b>1 U.S. 1</b> (1999).", "1 U.S. 1, 2 F.2d 2 (1999)."]
+CITE = ["1 U.S. 1 (1999).", "1&nbsp;U.S.&nbsp;1 (1999).", "1 U.S.\u00a01, 5 (1999);", "1 U.S. 1, 5 (1999);", "1 U.S.\n 1.", "<b>1 U.S. 1</b> (1999).", "1 U.S. 1, 2 F.2d 2 (1999)."]
 MID = [
     " The court in <i>Bar</i> held x.",
     " In <em>Foo,</em> we said.",
